@@ -311,9 +311,19 @@ func firstEffect(f *ssa.Function, depth int, seen map[*ssa.Function]bool) (*core
 	return nil, nil
 }
 
+// isReaderIface: v is a FormatReader-typed value, or a local interface view of one (ChangeInterface of such a value).
 func isReaderIface(v ssa.Value, readerI *types.Interface) bool {
-	it, ok := v.Type().Underlying().(*types.Interface)
-	return ok && types.Identical(it, readerI)
+	for {
+		it, ok := v.Type().Underlying().(*types.Interface)
+		if ok && types.Identical(it, readerI) {
+			return true
+		}
+		ci, isCI := v.(*ssa.ChangeInterface)
+		if !isCI {
+			return false
+		}
+		v = ci.X
+	}
 }
 
 // c10ReleaseBeforeRead: every path from entry to the invoke of FormatReader.Read passes a FormatReader.Release
@@ -354,9 +364,9 @@ type c10Cleared struct {
 }
 
 type c10ReleaseInfo struct {
-	sites       map[*ssa.BasicBlock]ssa.CallInstruction // blocks that release (directly or through a qualifying helper)
-	holderAddrs []ssa.Value
-	cleared     []c10Cleared
+	sites   map[*ssa.BasicBlock]ssa.CallInstruction // blocks that release (directly or through a qualifying helper)
+	holders []core.FieldPath
+	cleared []c10Cleared
 }
 
 // c10Releases finds the releasing call sites of f: invokes of FormatReader.Release, and static calls of repository
@@ -367,16 +377,15 @@ func c10Releases(f *ssa.Function, readerI *types.Interface, depth int) *c10Relea
 		cc := ci.Common()
 		if cc.IsInvoke() && isReaderIface(cc.Value, readerI) && cc.Method.Name() == "Release" {
 			info.sites[ci.Block()] = ci
-			if u, ok := cc.Args[0].(*ssa.UnOp); ok && u.Op == token.MUL {
-				info.holderAddrs = append(info.holderAddrs, u.X)
+			if hp, ok := core.LoadedField(cc.Args[0]); ok {
+				info.holders = append(info.holders, hp)
 				cleared, bad := false, false
 				core.WalkAfter(ci, func(in ssa.Instruction) bool {
+					if sp, _, isStore := core.StoredField(in); isStore && sp.Same(hp) {
+						cleared = true
+						return false
+					}
 					switch x := in.(type) {
-					case *ssa.Store:
-						if core.SameValue(x.Addr, u.X) {
-							cleared = true
-							return false
-						}
 					case ssa.CallInstruction:
 						if x.Common().IsInvoke() && isReaderIface(x.Common().Value, readerI) && x.Common().Method.Name() == "Read" {
 							bad = true
@@ -412,12 +421,12 @@ func c10Releases(f *ssa.Function, readerI *types.Interface, depth int) *c10Relea
 // passes a releasing site nor takes the nil edge of a test of a released holder?
 func c10PathAvoidingRelease(f *ssa.Function, target ssa.CallInstruction, info *c10ReleaseInfo) bool {
 	isHolderLoad := func(v ssa.Value) bool {
-		u, ok := v.(*ssa.UnOp)
-		if !ok || u.Op != token.MUL {
+		lp, ok := core.LoadedField(v)
+		if !ok {
 			return false
 		}
-		for _, a := range info.holderAddrs {
-			if core.SameValue(u.X, a) {
+		for _, hp := range info.holders {
+			if lp.Same(hp) {
 				return true
 			}
 		}
